@@ -269,6 +269,7 @@ SHAPES = [
     ("p_rep_link", "R(x,x) S(x,y) T(y,y) -> y", ""),
     ("p_one", "R(x,y) -> x", "q"),
     ("p_one_rep", "R(x,x,y) -> y", "q"),
+    ("one_rep3", "R(x,x,y) S(x)", "q"),
     ("p_star", "R(x,a) S(x,b) T(x,c) -> x", ""),
     ("p_chain4", "R(x,y) S(y,z) T(z,w) U(w,v) -> x,v", ""),
     ("p_two_guards", "R(a,a) S(b,b) T(y) -> y", ""),
@@ -294,6 +295,27 @@ SHAPES = [
     ("f_lt_tri", "R(x,y) S(y,z) T(z,x) lt(x,y)", ""),
     ("f_ne_proj", "R(x,y) S(z,w) ne(y,w) -> x,z", ""),
 ]
+
+# companion rules: a second rule with a different body over the SAME tables, placed in the same ruleset, so that the
+# executor shares roots / cached trie nodes / indexes between the two plans.  Its output is compared concretely only.
+COMPANIONS = {
+    "one": "R(x,x)",
+    "one_rep": "R(x,y) -> x",
+    "one_rep3": "R(x,z,z) S(x)",
+    "chain2": "R(x,y) S(x,z)",
+    "self2": "R(x,y) R(x,z) R(z,y)",
+    "same2": "R(x,y) S(y,x)",
+    "rep_link": "R(x,y) S(y,y)",
+    "triangle": "R(x,y) S(y,z) T(z,y)",
+    "chain3": "R(x,y) S(x,z) T(y,w)",
+    "star3": "R(x,a) S(a,b) T(x,b)",
+    "self_tri": "R(x,y) R(y,x)",
+    "tern": "R(x,x,z) S(x,z) T(z,z)",
+    "chain4": "R(x,y) S(x,z) T(y,w) U(z,w)",
+    "cycle4": "R(x,y) S(y,x) T(x,w) U(w,y)",
+    "p_one_rep": "R(x,y,y) -> x",
+    "g_rep": "R(a,b) S(a) -> a",
+}
 
 # profile = rows seeded per table before planning: (default size, {name: size} overrides)
 PROFILES_QUICK = [
@@ -369,7 +391,7 @@ def fact_text(name, key, val, is_func=None):
     return "(%s %s)" % (name, ks)
 
 
-def render_program(atoms, no_decomp, profile, steps, seed=0, rules=None, head=None, tail=None):
+def render_program(atoms, no_decomp, profile, steps, seed=0, rules=None, head=None, tail=None, companion=None):
     """steps: one entry per `(run <ruleset> 1)`:
          {"ruleset": name, "pre": [commands issued at top level before the run],
           "aux": [actions performed BY A RULE of that ruleset during this run]}
@@ -415,6 +437,11 @@ def render_program(atoms, no_decomp, profile, steps, seed=0, rules=None, head=No
     for rs, (outrel, ropts) in sorted(rules.items()):
         opts = ":ruleset %s" % rs + (" :no-decomp" if no_decomp else "") + ropts
         lines.append("(rule (%s) ((%s %s)) %s)" % (atoms.text, outrel, " ".join(vs), opts))
+    if companion is not None:
+        # (companion atoms, head, ruleset): same tables, different body, same ruleset as the main rule
+        catoms, chead, crs = companion
+        lines.insert(lines.index("(relation Trig (i64))"), "(relation OutC (%s))" % " ".join(tyname[var_type(v)] for v in chead))
+        lines.append("(rule (%s) ((OutC %s)) :ruleset %s%s)" % (catoms.text, " ".join(chead), crs, " :no-decomp" if no_decomp else ""))
     for k, st in enumerate(steps):
         if st.get("aux"):
             lines.append("(rule ((Trig %d)) (%s) :ruleset %s)" % (k, " ".join(st["aux"]), st["ruleset"]))
